@@ -15,8 +15,8 @@
   * `massLE f lo hi t = Σ_{lo ≤ k ≤ hi, f k ≤ t} f k`: the textbook two-sided p-value is
     `massLE f lo hi (f a)`.
 -/
-import Statrs.Draft.Lemmas.Unimodal
-import Statrs.Draft.Lemmas.UnimodalSums
+import Statrs.Lemmas.Unimodal
+import Statrs.Lemmas.UnimodalSums
 import Statrs.Lemmas.TestsHyper
 set_option linter.unusedVariables false
 set_option linter.unusedSectionVars false
